@@ -212,3 +212,8 @@ void _ZdlPv(uint8_t *p) { if (p) { VERIF_CHECK(rg_ndeleted < 4, "bound: deletion
 void _ZdlPvm(uint8_t *p, uint64_t n) { _ZdlPv(p); }
 uint32_t sched_yield(void) { if (rg_role) interfere(); return 0; }
 uint32_t nanosleep(void *a, void *b) { if (rg_role) interfere(); return 0; }
+/* pointer-cell atomics of the queue slots: same hooks (tokens are ids) */
+void *__at_loadp(void **p, int order) { return (void *)(uintptr_t)__at_load64((uint64_t *)p, order); }
+void __at_storep(void **p, void *v, int order) { __at_store64((uint64_t *)p, (uint64_t)(uintptr_t)v, order); }
+void *__at_xchgp(void **p, void *v, int order) { return (void *)(uintptr_t)__at_xchg64((uint64_t *)p, (uint64_t)(uintptr_t)v, order); }
+_Bool __at_casp(void **p, void **e, void *d, int so, int fo, int weak) { uint64_t ex = (uint64_t)(uintptr_t)*e; _Bool r = __at_cas64((uint64_t *)p, &ex, (uint64_t)(uintptr_t)d, so, fo, weak); *e = (void *)(uintptr_t)ex; return r; }
